@@ -306,11 +306,7 @@ mod v_wire_cksum {
         equiv::<27>(24);
     }
 
-    // @harness props=C08 cfg=KW tier=t to=1200 mem=8 unwind=20 opts=nomem covers=2 funcs=wire::checksum::data bounds=length_0..=32;_start_offset_0..=3;_all_contents
-    #[kani::proof]
-    pub(crate) fn cksum_equiv_32() {
-        equiv::<35>(32);
-    }
+    // (length 0..=32 gave no answer within 17 min: not kept; measured: 12: 70 s, 16: 170 s, 20: 330 s, 24: 680 s)
 
     // `data` has no alignment-dependent path (`as_chunks` splits by length, words are read with
     // `from_ne_bytes` from byte arrays), so the split harness starts at offset 0 of a symbolic array.
@@ -1140,7 +1136,7 @@ mod v_wire_cksum {
 
     // RFC 8200 section 8.1: over IPv6 the UDP checksum is not optional; a datagram whose checksum
     // field is zero must be discarded.  Only UDP over IPv4 may carry the 'no checksum' value.
-    // @harness props=C08 cfg=KW tier=q to=600 mem=4 unwind=8 opts=nomem covers=1 funcs=wire::UdpRepr::parse;wire::UdpPacket::verify_checksum bounds=emitted_datagram_(ports_symbolic,_4_payload_bytes);_checksum_field_zero;_IPv4_or_IPv6_(symbolic)
+    // @harness props=C08 cfg=KW tier=q to=600 mem=4 unwind=8 opts=nomem covers=1 kind=finding funcs=wire::UdpRepr::parse;wire::UdpPacket::verify_checksum bounds=emitted_datagram_(ports_symbolic,_4_payload_bytes);_checksum_field_zero;_IPv4_or_IPv6_(symbolic)
     #[kani::proof]
     pub(crate) fn udp6_zero_checksum_rejected() {
         let v6: bool = kani::any();
